@@ -548,7 +548,15 @@ func (i *interpreter) mutexOf(p *value) *mutexObj {
 func (s *scheduler) lock(m *mutexObj, read bool) {
 	s.yield("lock")
 	for {
-		if read && m.writer == nil {
+		// sync.RWMutex: a pending Lock keeps new readers out (also a reader that already holds
+		// the lock: a recursive RLock deadlocks against a waiting writer)
+		writerWaiting := false
+		for _, w := range m.waitq {
+			if !w.read && w.g != s.cur {
+				writerWaiting = true
+			}
+		}
+		if read && m.writer == nil && !writerWaiting {
 			m.readers[s.cur]++
 			s.cur.held[m]++
 			s.cur.fresh = false
